@@ -116,16 +116,21 @@ def run(ck):
     ck.ob("R1", "eval_updt_assignblk:evaluate-then-apply", ok, m.where(fn),
           "the block's evaluation does not dominate its state writes (sources must all be read before any destination is written)")
     # the values applied are the evaluated ones
-    ok = any(isinstance(n, ast.For) and "dst_src" in norm(n.iter) or (isinstance(n, ast.For) and "self.eval_assignblk(" in norm(n.iter)) for n in walk_body(fn))
+    from sa.astutil import Resolver
+    res_ = Resolver(fn)
+    ok = any(isinstance(n, ast.For) and "self.eval_assignblk(" in res_.expand(n.iter) and
+             any(dotted(c.func) in ("self.apply_change", "self.mem_write", "self.symbols.write") for c in ast.walk(n) if isinstance(c, ast.Call))
+             for n in walk_body(fn))
     ck.ob("R1", "eval_updt_assignblk:applies-evaluated", ok, m.where(fn), "the writes do not iterate over the evaluated (destination, value) pairs")
     fn = meths["eval_assignblk"]
-    ok = True
+    ok = False
+    blk = fn.args.args[1].arg
     for n in walk_body(fn):
-        if isinstance(n, ast.For) and "assignblk" in norm(n.iter):
-            body = ast.Module(body=n.body, type_ignores=[])
-            src_ev = any(isinstance(x, ast.Assign) and norm(x.value).startswith("self.eval_expr(src") for x in walk_local(body))
-            ptr_ev = any(isinstance(x, ast.Assign) and norm(x.value).startswith("self.eval_expr(dst.ptr") for x in walk_local(body))
-            ok = src_ev and ptr_ev
+        if isinstance(n, ast.For) and blk in [x.id for x in ast.walk(n.iter) if isinstance(x, ast.Name)] and isinstance(n.target, ast.Tuple) and len(n.target.elts) == 2 \
+                and all(isinstance(e, ast.Name) for e in n.target.elts):
+            d_, s_ = n.target.elts[0].id, n.target.elts[1].id
+            evs = [norm(c.args[0]) for c in ast.walk(n) if isinstance(c, ast.Call) and dotted(c.func) == "self.eval_expr" and c.args]
+            ok = s_ in evs and ("%s.ptr" % d_) in evs
     ck.ob("R1", "eval_assignblk:evaluates-src-and-ptr", ok, m.where(fn), "sources and memory destination pointers must both be evaluated in the pre-state")
 
     # ---------------------------------------------------------------- R2
